@@ -570,6 +570,12 @@ class Exec:
                 adt = e.get("adt")
                 if adt in QUALIFIED_ADTS:
                     fname = "%s.%s" % (adt.split("::")[-1], fname)
+                elif adt and isinstance(cur, tuple) and cur[0] == "field" and isinstance(cur[1], str) and "." in cur[1] \
+                        and adt.startswith(("ebr_impl::", "utils::", "strong::", "weak::")) and self.prog.is_new_type(adt):
+                    # a sub-struct a refactoring introduced inside one of the named structs (`self.flags.collecting`):
+                    # its fields are read as the outer struct's (`Local.collecting`)
+                    fname = "%s.%s" % (cur[1].split(".")[0], fname)
+                    cur = cur[2]
                 cur = _field(fname, cur)
             elif "downcast" in e:
                 cur = ("variant", e.get("name"), cur)
